@@ -88,7 +88,11 @@ NonEdges(s, v) ==
 Sq(x) == x * x
 D2(s, i, j) == Sq(At(s, i).x - At(s, j).x) + Sq(At(s, i).y - At(s, j).y) + Sq(At(s, i).z - At(s, j).z)
 Known(el)  == el \in DOMAIN Radius
-Rad(v, el) == IF v = "se1900" /\ el = "Se" THEN 1900
+MinRadius  == 120
+\* elements without a radius never bond (conjunct "radii"); the smallest radius is given to them ONLY to classify
+\* pairs ("would be close enough whatever the element") and in the variant that drops that conjunct
+Rad(v, el) == IF ~Known(el) THEN MinRadius
+              ELSE IF v = "se1900" /\ el = "Se" THEN 1900
               ELSE Radius[el] + (IF v = "loose" THEN 3 ELSE IF v = "tight" THEN -3 ELSE 0)
 RSum(s, v, i, j) == Rad(v, At(s, i).el) + Rad(v, At(s, j).el)
 \* d <= (fn/fd) * (ra + rb)/2   <=>   4 d^2 fd^2 <= fn^2 (ra+rb)^2 ; the first conjunct keeps the product in 32 bits
@@ -106,7 +110,7 @@ AnyNear(s) == \E p \in Pairs(s) : Near(s, p[1], p[2])
 
 \* the six conjuncts
 CRadii(s, p)      == Known(At(s, p[1]).el) /\ Known(At(s, p[2]).el)
-CWithin(s, v, p)  == CRadii(s, p) => Within(s, v, p[1], p[2])
+CWithin(s, v, p)  == Within(s, v, p[1], p[2])
 CNonEdge(NE, p)   == p \notin NE
 CNotHH(s, p)      == ~(At(s, p[1]).el = "H" /\ At(s, p[2]).el = "H")
 CNoHAcross(s, v, p) == SameRes(s, v, p[1], p[2]) \/ (At(s, p[1]).el # "H" /\ At(s, p[2]).el # "H")
